@@ -198,3 +198,77 @@ def failflow(rng):
                                   script=sc, behaviour=beh)
     spec = dict(steps=steps, handlers=handlers, disable_validation=rng.random() < 0.5)
     return spec, [], dict(policy="random")
+
+
+class RaisingPolicy:
+    """a user retry policy whose next() raises"""
+
+    def next(self, elapsed_time, attempts, error):
+        raise RuntimeError("policy bug")
+
+
+def _boom(e):
+    raise ZeroDivisionError("predicate bug")
+
+
+def exits(rng):
+    """Every way a run can end: result, step failure (with/without retries), a retry policy or retry predicate that
+    raises, a step returning a non-event, several invocations racing to return StopEvent, user cancellation at a random
+    moment, the workflow timeout, and a body that publishes while it is being cancelled."""
+    mode = rng.choice(["result", "step_fail", "policy_raises", "pred_raises", "other_return", "stop_race", "cancel",
+                       "timeout", "cancel", "timeout", "finally_publish"])
+    n = rng.choice([1, 2, 3])
+    k = rng.choice([1, 2, 3])
+    pol = None
+    bscript = [("gate", "w"), ("return", T2)]
+    cscript = [("collect", [T2] * n, None), ("return", StopEvent)]
+    timeout = None
+    ext = []
+    if mode == "step_fail":
+        pol = rng.choice([None, rp.retry_policy(wait=rp.wait_fixed(rng.choice([0, 0.5])), stop=rp.stop_after_attempt(2))])
+        bscript = [("gate", "w"), ("raise", "value", "boom")]
+    elif mode == "policy_raises":
+        pol = RaisingPolicy()
+        bscript = [("gate", "w"), ("raise", "value", "boom")]
+    elif mode == "pred_raises":
+        pol = rp.retry_policy(retry=rp.retry_if_exception(_boom), wait=rp.wait_fixed(0), stop=rp.stop_after_attempt(3))
+        bscript = [("gate", "w"), ("raise", "value", "boom")]
+    elif mode == "other_return":
+        bscript = [("gate", "w"), ("return", "other")]
+        timeout = 40.0
+    elif mode == "stop_race":
+        bscript = [("gate", "w"), ("return", StopEvent)]
+    elif mode == "timeout":
+        timeout = rng.choice([2.0, 5.0])
+    elif mode == "finally_publish":
+        bscript = [("on_cancel_publish", U6), ("gate", "w"), ("return", T2)]
+        if rng.random() < 0.5:
+            timeout = 3.0
+    if mode in ("cancel", "finally_publish") and timeout is None:
+        def cancel(handler, rec):
+            import asyncio
+            rec.ev("external", ev="cancel")
+            asyncio.ensure_future(handler.cancel_run())
+        cancel.label = "cancel_run"
+        ext = [cancel]
+    spec = dict(steps={
+        "a_start": dict(accepts=[StartEvent], returns=[T1, type(None)], num_workers=1,
+                        script=[("send", T1, n, None), ("return", None)]),
+        "b_work": dict(accepts=[T1], returns=[T2, StopEvent], num_workers=k, policy=pol, script=bscript),
+        "c_done": dict(accepts=[T2], returns=[StopEvent, type(None)], num_workers=1, script=cscript),
+    }, timeout=timeout)
+    spec["mode"] = mode
+    return spec, ext, dict(policy=rng.choice(["random", "lifo", "fifo"]))
+
+
+def exits_tc(rng):
+    """exits restricted to the timeout / cancellation modes (C31); time passes more readily so that timeouts strike
+    while step work is in progress, and sometimes the run finishes just before its timeout"""
+    while True:
+        r2 = __import__("random").Random(rng.randrange(1 << 30))
+        spec, ext, opts = exits(r2)
+        if spec["mode"] in ("cancel", "timeout", "finally_publish", "other_return"):
+            break
+    opts = dict(opts)
+    opts["time_bias"] = 0.35
+    return spec, ext, opts
